@@ -343,6 +343,10 @@ class Gen:
     def b_method(self, is_func):
         k = self.kwd
         name = self.ident(self.rng.choice(["", "Do", "Get", "on"]))
+        if self.rng.random() < 0.06:
+            # the sixteen token types parse_ident_token accepts: keywords elsewhere, names here
+            name = self.kwd(self.rng.choice(["type", "top", "from", "where", "order", "by", "select", "fetch", "into", "using",
+                                             "distinct", "descending", "conditional", "allversionsof", "phantomstoo"]))
         if self.rng.random() < 0.2:
             name = name + "#" + self.ident(self.rng.choice(["", "Ev"]))
         pre = self.annot() if self.rng.random() < 0.06 else []
